@@ -23,7 +23,7 @@ theorem frozenOf_snoc (pre : List Cls) (c : Cls) :
   simp only [frozenOf, List.foldl_append, List.foldl_cons, List.foldl_nil]
   cases c.kind <;> rfl
 
-theorem hasDictOf_snoc (pre : List Cls) (c : Cls) : hasDictOf (pre ++ [c]) = (hasDictOf pre || !c.slots) := by
+theorem hasDictOf_snoc (pre : List Cls) (c : Cls) : hasDictOf (pre ++ [c]) = (hasDictOf pre || c.givesDict) := by
   simp [hasDictOf, List.any_append]
 
 /-! ### `resolveAttrs` -/
